@@ -1111,8 +1111,11 @@ func historiesMain(args []string) {
 			break
 		}
 		if h.shut {
-			// whatever is left of the mesh goes away completely
-			m.Shutdown()
+			// whatever is left of the mesh goes away completely — by Shutdown() alone: the contexts the
+			// nodes were created from stay alive until the residue has been judged
+			for _, nd := range h.nodes {
+				nd.Shutdown()
+			}
 			now, _, _ := settle(nil, connQuiet(), 12*time.Second)
 			var left []string
 			for kk, v := range now {
@@ -1123,6 +1126,7 @@ func historiesMain(args []string) {
 			if len(left) > 0 {
 				res.violate(fmt.Sprintf("after Shutdown of every node these goroutines are still there: %v", left), "shutdown-residue", map[string]interface{}{"left": left, "history": h.labels})
 			}
+			m.Shutdown()
 			m = nil
 			if !fresh(2) {
 				break
